@@ -22,9 +22,14 @@ func Harness_C16_initialize_over_existing_tape() {
 	if tapeState <= 3 {
 		rows = append(rows, env.AddTapeEntry("/", tar.TypeDir, 0))
 		rows = append(rows, env.AddTapeEntry("/d", tar.TypeDir, 0))
-		if vm.Bool("deletionInHistory") {
+		switch vm.Choice("reuse", 3) {
+		case 1:
 			// something was created and removed again: the tape holds its CREATE and DELETE records
 			rows = append(rows, env.AddTapeTombstone("/d/x", tar.TypeReg))
+		case 2:
+			// ... and created once more under the same name (the second CREATE replaces the tombstone row)
+			env.AddTapeTombstone("/d/x", tar.TypeReg)
+			rows = append(rows, env.AddTapeEntry("/d/x", tar.TypeReg, 0))
 		}
 		rows = append(rows, env.AddTapeEntry("/d/g", tar.TypeReg, 700))
 	}
@@ -91,7 +96,7 @@ func Harness_C16_initialize_over_existing_tape() {
 	scratch, serr := c01Rebuild(v)
 	if serr == nil {
 		sm := config.MetadataConfig{Metadata: scratch}
-		for _, u := range []string{"/", "/d", "/d/g"} {
+		for _, u := range []string{"/", "/d", "/d/g", "/d/x"} {
 			vm.Assert("C16.view_equals_scratch_rebuild", c01SameView(env.Metadata, sm, u))
 		}
 	}
@@ -100,7 +105,20 @@ func Harness_C16_initialize_over_existing_tape() {
 		// how archive/tar parses that overlap is a byte-level question the structural tape model cannot answer)
 		return
 	}
-	// entries written afterwards are retrievable and survive a rebuild
+	// entries written afterwards are retrievable and survive a rebuild; also when they reuse a name that is
+	// removed first
+	if tapeState == 0 && vm.Bool("probeReusesName") {
+		rerr := v.FS.Remove("/d/g")
+		vm.Assert("C16.remove_after_initialize_succeeds", rerr == nil)
+		if rerr != nil {
+			return
+		}
+		cerr := v.FS.Mkdir("/d/g", 0o755)
+		vm.Assert("C16.recreate_after_initialize_succeeds", cerr == nil)
+		if cerr != nil {
+			return
+		}
+	}
 	merr := v.FS.Mkdir("/n", 0o755)
 	vm.Assert("C16.write_after_initialize_succeeds", merr == nil)
 	if merr != nil {
